@@ -191,6 +191,9 @@ func TestC09(t *testing.T) {
 		ref := ""
 		if rapid.Bool().Draw(rt, "hasRef") {
 			ref = rapid.StringMatching(`[a-zA-Z0-9_-]{1,10}`).Draw(rt, "ref")
+			if rapid.IntRange(0, 9).Draw(rt, "oddRef") == 0 {
+				ref = rapid.SampledFrom([]string{" ", "\t", " r ", "r\n", "é", "0", "null"}).Draw(rt, "oddRefValue")
+			}
 		}
 		tsText := ""
 		if rapid.Bool().Draw(rt, "hasTS") {
